@@ -328,6 +328,9 @@ structure MOps where
   matchReq : M → Req → List Route
   trace : M → Req → List Trace
   len : M → Nat
+  /-- `cache(limit, level)`: compile regexes of the trees at depth `level` while budget is left;
+  returns the new state and the budget left -/
+  cache : Nat → Nat → M → M × Nat
 
 /-- `is_empty()` of every matcher: `self.count == 0`. -/
 def MOps.isEmpty (I : MOps) (m : I.M) : Bool := I.len m == 0
